@@ -268,6 +268,21 @@ def verifyEth (cr : Crypto) (cfg : ChainCfg) (height : Nat) (tx : Tx) : Verdict 
 def verifyTx (cr : Crypto) (cfg : ChainCfg) (height : Nat) (tx : Tx) : Verdict :=
   if tx.type = typeETHTX then verifyEth cr cfg height tx else verifyNative cr cfg height tx
 
+/-! ### admission of a batch
+
+`WorkerConn.handleMessage(TransactionGotMsg)` (peer batches / sync replies) walks the received
+slice in order and hands an element to `TxPool.AddTransaction` exactly when *its own*
+`VerifyTransaction` returned nil; `GameExecutor.write` / `runWrite` do the same for a single
+transaction.  `TxPool.add` refuses a hash that is already in the pool. -/
+
+/-- the transactions a batch adds to a pool that already holds the hashes `have` -/
+def admitBatch (cr : Crypto) (cfg : ChainCfg) (height : Nat) : List Bytes → List Tx → List Tx
+  | _, [] => []
+  | have_, tx :: rest =>
+    if verifyTx cr cfg height tx = .ok ∧ tx.hash ∉ have_ then
+      tx :: admitBatch cr cfg height (tx.hash :: have_) rest
+    else admitBatch cr cfg height have_ rest
+
 /-! ### the oracle queries one evaluation makes (used by the driver to insist
 that every crypto answer it needed was supplied on the op line) -/
 
